@@ -524,9 +524,18 @@ def _check(run, pid):
     nworlds = conf["worlds"]
     if run.replay:
         rp = json.load(open(run.replay))["replay"]
+        if "genmodel" in rp:
+            from . import capimc
+            capimc.replay(run, pid, rp["genmodel"])
+            return
         seed, first, nworlds = rp["seed"], rp["world"], 1
     else:
         seed, first = run.seed, 0
+    if pid in ("C02", "C15") and not run.replay:
+        # the implementation-shaped model of the generator (XoCapi): model-level refinement, spec -> code program comparison,
+        # code -> spec execution of the parsed real programs by TLC over an enumerated type grammar
+        from . import capimc
+        capimc.model_level(run, pid)
     t0 = time.time()
     # worlds in groups: one driver build per group keeps translation units small
     group = 12
